@@ -47,7 +47,7 @@ theorem lift_matchRangeLoop (text : Bytes) (s : VMState) (lo hi : Bytes) (neg : 
   | zero => rfl
   | succ k ih =>
     unfold matchRangeLoop rangeLoopD
-    rw [lift_ite]
+    rw [lift_ite, lift_ite]
     simp only [lift_consumeNext, ih, data_pos]
     rfl
 
